@@ -211,7 +211,10 @@ func (a *Agent) gatherCandidates(ctx context.Context, done chan struct{}) { //no
 			}
 			a.log.Infof("Initialized network monitoring with %d IP addresses", len(addrs))
 		}
-		go a.startNetworkMonitoring(ctx)
+		// Run the monitor in the goroutine of the cycle: done must stay open while the
+		// monitor can still start a re-gathering, so that Close and the next
+		// GatherCandidates wait until its sockets are released too.
+		a.startNetworkMonitoring(ctx)
 	}
 }
 
